@@ -362,8 +362,13 @@ fn cmd_record_api(args: &[String]) -> i32 {
     let kind = arg(args, "--kind").expect("--kind");
     let out = arg(args, "--out").expect("--out");
     exec::calibrate_helpers();
-    let jobs: Vec<Value> = (0..n).map(|k| json!({"kind": kind, "seed": seed.wrapping_mul(1000003).wrapping_add(k), "len": len})).collect();
-    let results = run_isolated(&jobs, 30000, api::run_history);
+    // --script F: histories planned from the specification's state graph (one JSON job per line)
+    let script = arg(args, "--script");
+    let jobs: Vec<Value> = match script {
+        Some(path) => read_ndjson(path),
+        None => (0..n).map(|k| json!({"kind": kind, "seed": seed.wrapping_mul(1000003).wrapping_add(k), "len": len})).collect(),
+    };
+    let results = if script.is_some() { run_isolated(&jobs, 60000, api::run_script) } else { run_isolated(&jobs, 30000, api::run_history) };
     use std::io::Write;
     let mut f = std::fs::File::create(out).unwrap();
     let mut events = 0usize;
